@@ -149,7 +149,9 @@ pub fn outline(c: &mut Chooser, task: &ExternalTask) -> Vec<Entry> {
                 }
                 let with_y = c.flag(1, 3);
                 if with_y {
-                    f = g::bin(fol::BinaryConnective::Disjunction, f, atom(c.pick::<String>(&known), vec![gv("Y")]));
+                    // another variable: Y, or a general variable that shares its name with the induction variable
+                    let other = if c.aux(34, 2) == 0 { "Y" } else { "N" };
+                    f = g::bin(fol::BinaryConnective::Disjunction, f, atom(c.pick::<String>(&known), vec![gv(other)]));
                 }
                 let body = g::bin(fol::BinaryConnective::Implication, cmp(iv("N"), fol::Relation::GreaterEqual, num(lower)), f);
                 // free variables M (if used free) are closed by anthem; quantify explicitly half of the time
@@ -172,7 +174,18 @@ pub fn outline(c: &mut Chooser, task: &ExternalTask) -> Vec<Entry> {
             }
             _ => {
                 let p = c.pick(&known).clone();
-                let body = g::bin(fol::BinaryConnective::Implication, atom(&p, vec![gv("X")]), condition(c, &known, gv("X")));
+                let mut body = g::bin(fol::BinaryConnective::Implication, atom(&p, vec![gv("X")]), condition(c, &known, gv("X")));
+                // one lemma in four mentions no predicate at all (pure arithmetic, possibly over a placeholder)
+                if c.aux(33 + i as u64, 4) == 0 {
+                    body = match task.names.placeholders.iter().find(|p| p.1 == fol::Sort::Integer) {
+                        Some((n, _)) if c.aux(35, 2) == 0 => g::bin(
+                            fol::BinaryConnective::Disjunction,
+                            cmp(fol::GeneralTerm::SymbolicTerm(fol::SymbolicTerm::Symbol(n.clone())), fol::Relation::GreaterEqual, num(0)),
+                            cmp(fol::GeneralTerm::SymbolicTerm(fol::SymbolicTerm::Symbol(n.clone())), fol::Relation::Less, gv("X")),
+                        ),
+                        _ => g::bin(fol::BinaryConnective::Disjunction, cmp(gv("X"), fol::Relation::GreaterEqual, num(0)), cmp(gv("X"), fol::Relation::Less, num(1))),
+                    };
+                }
                 let formula = if c.flag(1, 2) { g::quant(true, vec![v("X", fol::Sort::General)], body) } else { body };
                 entries.push(Entry {
                     formula: gt::annotated(fol::Role::Lemma, direction(c), &format!("lem{i}"), formula),
